@@ -54,7 +54,15 @@ class Ctx:
                 seed = 1
         self.seed = seed % (2 ** 31 - 1) or 1
         self.t0 = time.time()
-        self.build = os.path.join(ROOT, "build", pid)
+        # one scratch directory per run (concurrent runs of the same check must not collide);
+        # directories left behind by runs whose process is gone are removed
+        broot = os.path.join(ROOT, "build")
+        os.makedirs(broot, exist_ok=True)
+        for d in os.listdir(broot):
+            m = re.match(r"^%s\.(\d+)$" % re.escape(pid), d)
+            if (m and not os.path.exists("/proc/%s" % m.group(1))) or d == pid:
+                shutil.rmtree(os.path.join(broot, d), ignore_errors=True)
+        self.build = os.path.join(broot, "%s.%d" % (pid, os.getpid()))
         shutil.rmtree(self.build, ignore_errors=True)
         os.makedirs(self.build)
         os.makedirs(os.path.join(self.build, "tmp"))
@@ -496,6 +504,8 @@ def main(pid, runner, argv=None):
         sys.exit(rc)
     except MachineryError as e:
         log("MACHINERY-ERROR property=%s: %s" % (pid, e))
+        if not ctx.keep:
+            shutil.rmtree(ctx.build, ignore_errors=True)
         sys.exit(2)
 
 
